@@ -82,7 +82,7 @@ formulas).  The theorems hold for every list of steps whatsoever. -/
 inductive Step
   | skip (S slot : Nat)
   | raise (e : Err)      -- the float computation of this iteration raised
-deriving Repr
+deriving Repr, DecidableEq
 
 /-- the loop `for r1,r2,r3 in …: W=…; S=…; reservoir[slot] = next(islice(items,S,S+1))`,
 left by `StopIteration` when fewer than `S+1` items remain -/
